@@ -482,7 +482,7 @@ def numeric_stream(R, ctx, tn):
     rng = ctx['rng']
     items, idbad, meta = [], [], []
     dist = dict(kinds={}, d={}, iters=0)
-    for j in range(240 if ctx['thorough'] else 40):
+    for j in range(400 if ctx['thorough'] else 90):
         c = gen_lowrank(rng)
         c['cache'] = False
         if max(c['ns']) > 4 and len(c['ns']) > 3:
@@ -567,7 +567,7 @@ def correspondence(R, ctx):
     items = []
     dist = dict(pairs=0, lockstep=0, parted=0, rejected=0, d={}, stops={}, prefilled=0)
     pair_bad, info_bad = [], []
-    npairs = 600 if thorough else 110
+    npairs = 800 if thorough else 200
     for j in range(npairs):
         cfg = _pair_cfg(rng, small=(j % 3 == 0))
         keep = {}
@@ -620,7 +620,7 @@ def search(R, ctx, deep, hints):
     n1 = n2 = n3 = 0
     # 1. exactness on rank-rho targets
     err_hist = []
-    for j in range(2500 if deep else 260):
+    for j in range(4000 if deep else 600):
         c = gen_lowrank(rng)
         n1 += 1
         f = oracle_exact(tn, c)
@@ -639,7 +639,7 @@ def search(R, ctx, deep, hints):
             cand.append(h['input'][1])
         except Exception:
             pass
-    for _ in range(800 if deep else 60):
+    for _ in range(800 if deep else 100):
         cand.append(_pair_cfg(rng))
     k0 = len(fails)
     for cfg in cand:
